@@ -10,6 +10,10 @@ VX = os.path.join(BUILD, "tools", "release", "vx-extract")
 NPROC = int(os.environ.get("VERIF_JOBS", "0")) or os.cpu_count() or 8
 import hashlib as _hl
 REPO_TAG = "main" if REPO == "/repo" else _hl.sha256(REPO.encode()).hexdigest()[:10]
+if REPO_TAG != "main":
+    # runs against a scratch worktree (seeded-change trials) never touch the committed evidence
+    EVID = os.path.join(BUILD, "evidence-" + REPO_TAG)
+    REPLAY = os.path.join(EVID, "replay")
 
 OFFLINE_ENV = {"CARGO_NET_OFFLINE": "true", "GOPROXY": "off", "PIP_NO_INDEX": "1"}
 
